@@ -3,6 +3,8 @@ C16 - helper lemmas for the remaining Dataset mirrors (`Lib/DatasetOps.lean` rou
 `Lib/DatasetOps3.lean`): what happens to Dataset-level, variable-level and axis metadata.
 -/
 import DimModel.Proofs.C16More
+import DimModel.Lib.InterpLike
+import DimModel.Lib.OnDiskMulti
 namespace DimModel.C16
 open Lib DSV
 
@@ -349,5 +351,281 @@ theorem reindexLikeDs_spec {α : Type} (nan : α) (ds r : Ds α) (tmpl : List Ax
     obtain ⟨kv0, hkv0, hb⟩ := hs.2 kv1 hkv1
     exact ⟨kv0, hkv0, ha.trans hb⟩
   · cases hstep; exact hs
+
+/-! ### wave 5: `reindexAxisDsM`, and the axis halves of the `Dataset(dict)`-based mirrors -/
+
+/-- `Dataset.reindex_axis` in full (`raise_error`, `method`): as `reindexAxisDs_spec` - the two extra branches
+(IndexError; values left alone under a `method`) do not touch any metadata -/
+theorem reindexAxisDsM_spec {α} (ds r : Ds α) (name : String) (newL : List Label) (nk : Kind) (fill : α) (fk : Kind)
+    (raiseErr : Bool) (method : Option Side)
+    (h : reindexAxisDsM ds name newL nk fill fk raiseErr method = .ok r) :
+    r.attrs = ds.attrs ∧
+    (∀ e ∈ r.axes, e.name = name → ∃ ax, ds.axes.find? (·.name == name) = some ax ∧ e.attrs = ax.attrs) ∧
+    (∃ e ∈ r.axes, e.name = name) ∧
+    (∀ e ∈ r.axes, e.name ∈ ds.dims → (e.name, e.attrs) ∈ axisMeta ds.axes) ∧
+    (∀ kv ∈ r.vars, ∃ kv0 ∈ ds.vars, kv.2.attrs = kv0.2.attrs) := by
+  unfold reindexAxisDsM at h
+  split at h
+  · cases h
+  · rename_i ax hfind
+    obtain ⟨hmem, hnm⟩ := find?_name_some' hfind
+    simp only at h
+    split at h
+    · cases h
+    · obtain ⟨taken, ht, h⟩ := bind_ok h
+      obtain ⟨t1, t2, ⟨e0, he0, hn0⟩, t3, t4⟩ := takeAxisPosDs_spec ds taken name _ ht
+      split at h
+      · cases h; exact ⟨t1, t2, ⟨e0, he0, hn0⟩, t3, t4⟩
+      · split at h
+        · cases h
+        · cases h
+          refine ⟨t1, ?_, ?_, ?_, ?_⟩
+          · intro e he hn
+            obtain ⟨a, ha, rfl⟩ := List.mem_map.mp he
+            by_cases hax : (a.name == name) = true
+            · simp only [hax, if_true]
+              exact ⟨ax, hfind, rfl⟩
+            · simp only [hax, Bool.false_eq_true, if_false] at hn ⊢
+              exact t2 a ha hn
+          · refine ⟨_, List.mem_map.mpr ⟨e0, he0, rfl⟩, ?_⟩
+            have : (e0.name == name) = true := by simpa using hn0
+            simp only [this, if_true]
+          · intro e he hd
+            obtain ⟨a, ha, rfl⟩ := List.mem_map.mp he
+            by_cases hax : (a.name == name) = true
+            · simp only [hax, if_true]
+              exact mem_axisMeta.mpr ⟨ax, hmem, hnm, rfl⟩
+            · simp only [hax, Bool.false_eq_true, if_false] at hd ⊢
+              exact t3 a ha hd
+          · intro kv hkv
+            obtain ⟨kv1, hkv1, rfl⟩ := List.mem_map.mp hkv
+            obtain ⟨kv0, hkv0, ha⟩ := t4 kv1 hkv1
+            refine ⟨kv0, hkv0, ?_⟩
+            by_cases hp : kv1.2.dims.idxOf name < kv1.2.dims.length
+            · simp only [hp, if_true]; exact ha
+            · simp only [hp, if_false]; exact ha
+
+/-- "the axis carries the name and metadata of an axis of a variable of the Dataset" -/
+def VarAxisOf {α : Type} (ds : Ds α) (e : Axis) : Prop :=
+  ∃ kv ∈ ds.vars, (e.name, e.attrs) ∈ axisMeta kv.2.axes
+
+theorem mem_axisMeta_self {l : List Axis} {e : Axis} (h : e ∈ l) : (e.name, e.attrs) ∈ axisMeta l :=
+  mem_axisMeta.mpr ⟨e, h, rfl, rfl⟩
+
+/-- `-ds`: every axis of the result IS an axis of a variable of the input -/
+theorem unaryOpDs_axes {α : Type} (u : α → α) (ds r : Ds α) (h : unaryOpDs u ds = .ok r) :
+    ∀ e ∈ r.axes, ∃ kv ∈ ds.vars, e ∈ kv.2.axes := by
+  unfold unaryOpDs at h
+  refine (foldlM_setItem_fresh (fun _ => True) (fun e => ∃ kv ∈ ds.vars, e ∈ kv.2.axes) _ ds.vars r ?_ h).2.2
+  intro s b s' hb hstep
+  exact Or.inr ⟨b.1, unaryOp u b.2, hstep, trivial, fun e he => ⟨b, hb, he⟩⟩
+
+/-- `3 - ds`: every axis of the result IS an axis of a variable of the input -/
+theorem rbinaryOpDs_axes {α : Type} (f : α → α → α) (ds r : Ds α) (lhs : Operand α) (h : rbinaryOpDs f ds lhs = .ok r) :
+    ∀ e ∈ r.axes, ∃ kv ∈ ds.vars, e ∈ kv.2.axes := by
+  unfold rbinaryOpDs at h
+  split at h
+  · refine (foldlM_setItem_fresh (fun _ => True) (fun e => ∃ kv ∈ ds.vars, e ∈ kv.2.axes) _ ds.vars r ?_ h).2.2
+    intro s b s' hb hstep
+    obtain ⟨v, hv, hstep⟩ := bind_ok hstep
+    refine Or.inr ⟨b.1, v, hstep, trivial, fun e he => ⟨b, hb, ?_⟩⟩
+    rw [(operationNd_spec f b.2 v _ true hv).2] at he
+    exact he
+  · cases h
+
+/-- `Dataset(dict)`: every axis of the new Dataset carries the name and metadata of an axis of one of the values -/
+theorem fromVars_axes {α} (nan : α) (vars : List (String × DimArray α)) (r : Ds α) (h : fromVars nan vars = .ok r) :
+    ∀ e ∈ r.axes, ∃ kv0 ∈ vars, (e.name, e.attrs) ∈ axisMeta kv0.2.axes := by
+  unfold fromVars at h
+  obtain ⟨al, hal, h⟩ := bind_ok h
+  have hP := align_spec nan _ _ _ _ _ _ hal
+  refine foldlM_inv (fun acc : Ds α => ∀ e ∈ acc.axes, ∃ kv0 ∈ vars, (e.name, e.attrs) ∈ axisMeta kv0.2.axes)
+    _ _ _ _ ?_ (fun e he => by cases he) h
+  intro acc x acc' hx hacc hstep
+  obtain ⟨_, e2, _, _⟩ := setItem_spec _ _ _ _ hstep
+  intro e he
+  rcases e2 e he with hin | ⟨hin, _⟩
+  · exact hacc e hin
+  · have hx2 : x.2 ∈ al := (List.of_mem_zip hx).2
+    obtain ⟨v0, hv0, hsame⟩ := Pointwise.mem hP x.2 hx2
+    obtain ⟨kv0, hkv0, rfl⟩ := List.mem_map.mp hv0
+    exact ⟨kv0, hkv0, hsame.2.1 ▸ mem_axisMeta_self hin⟩
+
+theorem copyDs_axes {α : Type} (nan : α) (ds r : Ds α) (h : copyDs nan ds = .ok r) : ∀ e ∈ r.axes, VarAxisOf ds e := by
+  unfold copyDs at h
+  obtain ⟨ds2, h2, h⟩ := bind_ok h
+  cases h
+  exact fromVars_axes nan ds.vars ds2 h2
+
+theorem reduceVarDs_axes {α : Type} (red : List α → α) (name : String) (v r : DimArray α)
+    (h : reduceVarDs red name v = .ok r) : ∀ x ∈ r.axes, x ∈ v.axes := by
+  unfold reduceVarDs at h
+  obtain ⟨x, hx, h⟩ := bind_ok h
+  split at h
+  · cases h; intro x hx; cases hx
+  · cases h; exact (reduceAxis_spec red v _ _ hx).2
+
+theorem reduceAllVarDs_axes {α : Type} (red : List α → α) (v r : DimArray α)
+    (h : reduceAllVarDs red v = .ok r) : ∀ x ∈ r.axes, x ∈ v.axes := by
+  unfold reduceAllVarDs at h
+  obtain ⟨x, hx, h⟩ := bind_ok h
+  split at h
+  · cases h; intro x hx; cases hx
+  · cases h; exact (reduceAxis_spec red v _ _ hx).2
+
+theorem reduceDs_axes {α : Type} (nan : α) (red : List α → α) (ds r : Ds α) (name : String)
+    (h : reduceDs nan red ds name = .ok r) : ∀ e ∈ r.axes, VarAxisOf ds e := by
+  unfold reduceDs applyAxis at h
+  split at h
+  · cases h
+  · obtain ⟨vars, hvars, h⟩ := bind_ok h
+    intro e he
+    obtain ⟨kv1, hkv1, hm⟩ := fromVars_axes nan vars r h e he
+    obtain ⟨kv0, hkv0, hf⟩ := mapM_mem _ ds.vars vars hvars kv1 hkv1
+    obtain ⟨y, hy, hyn, hya⟩ := mem_axisMeta.mp hm
+    split at hf
+    · obtain ⟨x, hx, hf⟩ := bind_ok hf
+      cases hf
+      exact ⟨kv0, hkv0, mem_axisMeta.mpr ⟨y, reduceVarDs_axes red name kv0.2 x hx y hy, hyn, hya⟩⟩
+    · cases hf; exact ⟨kv1, hkv0, hm⟩
+
+theorem reduceAllDs_axes {α : Type} (nan : α) (red : List α → α) (ds r : Ds α)
+    (h : reduceAllDs nan red ds = .ok r) : ∀ e ∈ r.axes, VarAxisOf ds e := by
+  unfold reduceAllDs at h
+  obtain ⟨vars, hvars, h⟩ := bind_ok h
+  intro e he
+  obtain ⟨kv1, hkv1, hm⟩ := fromVars_axes nan vars r h e he
+  obtain ⟨kv0, hkv0, hf⟩ := mapM_mem _ ds.vars vars hvars kv1 hkv1
+  obtain ⟨y, hy, hyn, hya⟩ := mem_axisMeta.mp hm
+  obtain ⟨x, hx, hf⟩ := bind_ok hf
+  cases hf
+  exact ⟨kv0, hkv0, mem_axisMeta.mpr ⟨y, reduceAllVarDs_axes red kv0.2 x hx y hy, hyn, hya⟩⟩
+
+/-! ### wave 5: interpolation on Datasets / like a template, the on-disk reads -/
+
+theorem interpLike_spec {α} [Inhabited α] (lin : α → α → Rat → α) (a r : DimArray α) (tmpl : List Axis) (left right : α)
+    (h : interpLike lin a tmpl left right = .ok r) : r.attrs = a.attrs := by
+  unfold interpLike at h
+  refine foldlM_inv (fun acc : DimArray α => acc.attrs = a.attrs) _ a.axes a r ?_ rfl h
+  intro s ax s' _ hs hstep
+  unfold interpLikeStep at hstep
+  split at hstep
+  · exact (interpAxis_spec lin s s' _ _ _ _ _ hstep).1.trans hs
+  · cases hstep; exact hs
+
+theorem interpSortedDs_spec {α} [Inhabited α] (lin : α → α → Rat → α) (o r : Ds α) (name : String) (newL : List Label)
+    (nk : Kind) (left right : α) (h : interpSortedDs lin o name newL nk left right = .ok r) :
+    r.attrs = o.attrs ∧ (∀ kv ∈ r.vars, ∃ kv0 ∈ o.vars, kv.2.attrs = kv0.2.attrs) ∧
+    (∀ e ∈ r.axes, e.name = name → e.attrs = []) ∧ (∃ e ∈ r.axes, e.name = name) := by
+  unfold interpSortedDs at h
+  split at h
+  · cases h
+  · split at h
+    · split at h
+      · cases h
+      · obtain ⟨out, hout, h⟩ := bind_ok h
+        cases h
+        obtain ⟨t1, t2, ⟨e0, he0, hn0⟩, t4⟩ := reduceAxisKeep_spec o out name _ _ rfl hout
+        refine ⟨t1, ?_, fun e he hn => by rw [t2 e he hn], ⟨e0, he0, by rw [hn0]⟩⟩
+        intro kv hkv
+        obtain ⟨kv1, hkv1, rfl⟩ := List.mem_map.mp hkv
+        obtain ⟨kv0, hkv0, ha⟩ := t4 kv1 hkv1
+        refine ⟨kv0, hkv0, ?_⟩
+        by_cases hp : kv1.2.dims.contains name = true
+        · simp only [hp, if_true]; exact ha
+        · simp only [hp, if_false]; exact ha
+    · cases h
+
+theorem interpAxisDs_spec {α} [Inhabited α] (lin : α → α → Rat → α) (ds r : Ds α) (name : String) (newL : List Label)
+    (nk : Kind) (left right : α) (h : interpAxisDs lin ds name newL nk left right = .ok r) :
+    r.attrs = ds.attrs ∧ (∀ kv ∈ r.vars, ∃ kv0 ∈ ds.vars, kv.2.attrs = kv0.2.attrs) ∧
+    (∀ e ∈ r.axes, e.name = name → e.attrs = []) ∧ (∃ e ∈ r.axes, e.name = name) := by
+  unfold interpAxisDs at h
+  split at h
+  · cases h
+  · dsimp only at h
+    split at h
+    · obtain ⟨o, ho, h⟩ := bind_ok h
+      cases ho
+      exact interpSortedDs_spec lin ds r name newL nk left right h
+    · obtain ⟨o, ho, h⟩ := bind_ok h
+      obtain ⟨s1, s2, s3, s4⟩ := interpSortedDs_spec lin o r name newL nk left right h
+      obtain ⟨t1, _, _, _, t4⟩ := sortAxisDs_spec ds o name ho
+      refine ⟨s1.trans t1, fun kv hkv => ?_, s3, s4⟩
+      obtain ⟨kv1, hkv1, ha⟩ := s2 kv hkv
+      obtain ⟨kv0, hkv0, hb⟩ := t4 kv1 hkv1
+      exact ⟨kv0, hkv0, ha.trans hb⟩
+
+theorem interpLikeDs_spec {α} [Inhabited α] (lin : α → α → Rat → α) (ds r : Ds α) (tmpl : List Axis) (left right : α)
+    (h : interpLikeDs lin ds tmpl left right = .ok r) :
+    r.attrs = ds.attrs ∧ ∀ kv ∈ r.vars, ∃ kv0 ∈ ds.vars, kv.2.attrs = kv0.2.attrs := by
+  unfold interpLikeDs at h
+  refine foldlM_inv (fun acc : Ds α => acc.attrs = ds.attrs ∧ ∀ kv ∈ acc.vars, ∃ kv0 ∈ ds.vars, kv.2.attrs = kv0.2.attrs)
+    _ ds.axes ds r ?_ ⟨rfl, fun kv hkv => ⟨kv, hkv, rfl⟩⟩ h
+  intro s ax s' _ hs hstep
+  unfold interpLikeDsStep at hstep
+  split at hstep
+  · obtain ⟨t1, t4, _, _⟩ := interpAxisDs_spec lin s s' _ _ _ _ _ hstep
+    refine ⟨t1.trans hs.1, fun kv hkv => ?_⟩
+    obtain ⟨kv1, hkv1, ha⟩ := t4 kv hkv
+    obtain ⟨kv0, hkv0, hb⟩ := hs.2 kv1 hkv1
+    exact ⟨kv0, hkv0, ha.trans hb⟩
+  · cases hstep; exact hs
+
+open OnDisk in
+/-- `DatasetOnDisk.read`: the file's metadata; every variable read carries the metadata of a variable of the file -/
+theorem readFile_spec {α} (d : α) (f : DiskDs α) (names : Option (List String)) (idx : Option FileIndex) (r : Ds α)
+    (h : readFile d f names idx = .ok r) :
+    r.attrs = f.attrs ∧ ∀ kv ∈ r.vars, ∃ kv0 ∈ f.vars, kv.2.attrs = kv0.2.attrs := by
+  unfold readFile at h
+  obtain ⟨pix, _, h⟩ := bind_ok h
+  obtain ⟨data, hdata, h⟩ := bind_ok h
+  cases h
+  refine ⟨rfl, ?_⟩
+  have := foldlM_setItem_gen (fun A => ∃ kv0 ∈ f.vars, A = kv0.2.attrs) (fun _ => True) _ _ _ data ?_ hdata
+  · intro kv hkv
+    rcases this.2.1 kv hkv with h0 | h0
+    · cases h0
+    · exact h0
+  · intro s nm s' _ hstep
+    split at hstep
+    · cases hstep
+    · rename_i kv hfind
+      exact Or.inr ⟨nm, _, hstep, ⟨kv, List.mem_of_find?_eq_some hfind, rfl⟩, fun _ _ => trivial⟩
+
+open OnDisk in
+/-- `_read_multinc`: the joined Dataset is fresh - no Dataset metadata, no variable metadata -/
+theorem readMulti_spec {α} [Inhabited α] (d nan : α) (files : List (DiskDs α)) (names : Option (List String))
+    (idx : Option FileIndex) (o : MultiOpts) (defaultKeys : List Label) (r : Ds α)
+    (h : readMulti d nan files names idx o defaultKeys = .ok r) : r.attrs = [] ∧ ∀ kv ∈ r.vars, kv.2.attrs = [] := by
+  unfold readMulti at h
+  obtain ⟨⟨datasets, st⟩, _, h⟩ := bind_ok h
+  have hS : ∀ ax ks kk, stackDsA nan datasets ax ks kk o.align o.join o.sort = .ok r →
+      r.attrs = [] ∧ ∀ kv ∈ r.vars, kv.2.attrs = [] := fun ax ks kk h =>
+    have hh := stackDsA_spec nan datasets ax ks kk _ _ _ r h
+    ⟨hh.1, hh.2.1⟩
+  have hC1 : ∀ a ks kk, (concatenateDsA nan datasets (.name a) o.align o.join o.sort >>= fun ds =>
+      reindexAxisDs ds a ks kk nan .f) = .ok r → r.attrs = [] ∧ ∀ kv ∈ r.vars, kv.2.attrs = [] := by
+    intro a ks kk h
+    obtain ⟨ds, hds, h⟩ := bind_ok h
+    obtain ⟨c1, c2, _⟩ := concatenateDsA_spec nan datasets _ _ _ _ ds hds
+    obtain ⟨t1, _, _, _, t4⟩ := reindexAxisDs_spec ds r _ _ _ _ _ h
+    refine ⟨t1.trans c1, fun kv hkv => ?_⟩
+    obtain ⟨kv0, hkv0, ha⟩ := t4 kv hkv
+    exact ha.trans (c2 kv0 hkv0)
+  have hC2 : ∀ a, (concatenateDsA nan datasets (.name a) o.align o.join o.sort >>= fun ds => pure ds) = .ok r →
+      r.attrs = [] ∧ ∀ kv ∈ r.vars, kv.2.attrs = [] := by
+    intro a h
+    obtain ⟨ds, hds, h⟩ := bind_ok h
+    obtain ⟨c1, c2, _⟩ := concatenateDsA_spec nan datasets _ _ _ _ ds hds
+    cases h; exact ⟨c1, c2⟩
+  unfold joinRead at h
+  dsimp only at h
+  repeat' split at h
+  all_goals first
+    | (cases h; done)
+    | exact hS _ _ _ h
+    | exact hC1 _ _ _ h
+    | exact hC2 _ h
 
 end DimModel.C16
